@@ -798,8 +798,22 @@ theorem soundE_step (f : Nat) (hE : SoundE f) (hL : SoundL f) (hS : SoundS f) : 
     split at h2
     · cases h2
     · rename_i hb
-      have e1 := eq_of_eqv_bool (by simpa using hb)
-      subst e1
+      -- a condition of type `!` produces no value at all
+      have hcond : tc = .bool := by
+        simp only [Bool.not_eq_true', Bool.not_eq_false', Bool.or_eq_true] at hb
+        have hb' : eqv tc .bool = true ∨ eqv tc .never = true := by
+          cases h1 : eqv tc .bool <;> cases h2' : eqv tc .never <;> simp_all
+        rcases hb' with h | h
+        · exact eq_of_eqv_bool h
+        · exfalso
+          have : tc = .never := by cases tc <;> simp [eqv] at h <;> rfl
+          subst this
+          simp only [eval] at hev
+          obtain ⟨x, σ1, hc, _⟩ := bindM_ok hev
+          have := (hE g env c .never σ σ1 x henv htc hc).1
+          rw [hasTy_never] at this
+          cases this
+      subst hcond
       obtain ⟨tt, htt, h3⟩ := bind_ok h2
       have wtt := tyOf_wf g t tt htt
       simp only [eval] at hev
